@@ -1,8 +1,8 @@
 #!/bin/bash
-# usage: tools/round5.sh Cxx   — confirm /tmp/mutout5-cxx/{I,J} and run the check against each kept change
-p=$1; l=$(echo $p | tr 'C' 'c')
-for v in I J; do
-  d=/tmp/mutout5-$l/$v
+# usage: tools/round.sh <round no> <Cxx> <letter> [<letter>…] — confirm /tmp/mutout<round>-cxx/<letter> and run the check against each kept change
+r=$1; p=$2; shift 2; l=$(echo $p | tr 'C' 'c')
+for v in "$@"; do
+  d=/tmp/mutout$r-$l/$v
   [ -f $d/patch.diff ] || { echo "$p-$v: no patch"; continue; }
   /venv/bin/python /verif/tools/confirm_seeded.py $p $d $p-$v 2>&1 | grep -v WARNING | tail -2
   [ -d /verif/seeded/$p-$v ] && /venv/bin/python /verif/tools/run_seeded.py $p-$v 2>&1 | grep -v WARNING | tail -1
